@@ -118,6 +118,36 @@ func c03Gen(tier string, r *rand.Rand) []Case {
 			add("api-large", "api-large", lv, nil)
 		}
 	}
+	// offsets w_i * D whose moments vanish: sum w_i = 0, sum i w_i = 0 (, sum i^2 w_i = 0).  Coefficients that
+	// are constant, affine or quadratic in the index (instead of independent) let these cancel in the root
+	// aggregate although every altered signature is invalid on its own
+	{
+		type mc struct {
+			idx []int
+			w   []int64
+		}
+		pats := []mc{{[]int{0, 1, 2}, []int64{1, -2, 1}}, {[]int{0, 1, 3}, []int64{2, -3, 1}}, {[]int{0, 2, 4}, []int64{1, -2, 1}},
+			{[]int{0, 1, 2, 3}, []int64{1, -3, 3, -1}}, {[]int{0, 1}, []int64{1, -1}}, {[]int{0, 1, 2, 3, 4}, []int64{1, -4, 6, -4, 1}}}
+		for pi, pt := range pats {
+			for _, shift := range []int{0, 1, 5} {
+				n := pt.idx[len(pt.idx)-1] + shift + 1 + r.IntN(3)
+				if pi%2 == 1 && shift == 5 {
+					n += 9 // crosses the 8-per-limb batches of the C layer
+				}
+				d := rsc()
+				lv := make([]c03Leaf, n)
+				for i := range lv {
+					lv[i] = good(rsc())
+				}
+				for k, ix := range pt.idx {
+					x, _ := new(big.Int).SetString(lv[ix+shift].X, 16)
+					wd := new(big.Int).Mul(big.NewInt(pt.w[k]), d)
+					lv[ix+shift] = off(x, wd.Mod(wd, blsR))
+				}
+				add("moment-cancel", "api", lv, nil)
+			}
+		}
+	}
 	// every assignment of {valid, wrong but well formed, malformed (right length), outside G1} to the
 	// positions, n <= 4: malformed entries are pre-marked INVALID by the C layer and must stay so even when
 	// the descent reaches their leaf because a sibling is wrong
